@@ -135,16 +135,26 @@ struct Known {
 }
 
 fn load_known(property: &str) -> Vec<Known> {
-    let path = verif_root().join("known_findings.json");
-    let Ok(text) = std::fs::read_to_string(&path) else {
-        return vec![];
-    };
-    let v: Value = match serde_json::from_str(&text) {
-        Ok(v) => v,
-        Err(e) => machinery_error(&format!("known_findings.json unparsable: {}", e)),
-    };
+    // known_findings.json plus every known_findings.d/*.json (same format), all read-only
+    let mut files = vec![verif_root().join("known_findings.json")];
+    if let Ok(rd) = std::fs::read_dir(verif_root().join("known_findings.d")) {
+        let mut extra: Vec<PathBuf> = rd.filter_map(|e| e.ok().map(|e| e.path())).filter(|p| p.extension().map(|x| x == "json").unwrap_or(false)).collect();
+        extra.sort();
+        files.extend(extra);
+    }
+    let mut all = vec![];
+    for path in files {
+        let Ok(text) = std::fs::read_to_string(&path) else {
+            continue;
+        };
+        let v: Value = match serde_json::from_str(&text) {
+            Ok(v) => v,
+            Err(e) => machinery_error(&format!("{} unparsable: {}", path.display(), e)),
+        };
+        all.extend(v["findings"].as_array().cloned().unwrap_or_default());
+    }
     let mut out = vec![];
-    for f in v["findings"].as_array().cloned().unwrap_or_default() {
+    for f in all {
         if f["property"].as_str() != Some(property) {
             continue;
         }
